@@ -17,6 +17,7 @@ RULE = (
     "carry labels too). A label that slid off a wholly deleted block in "
     "front of a data block must be the START of what follows, not the end "
     "of the block in front (referent identity and at_end are compared)."
+    " Second module in the IR as in C01: its symbols, proxies and entry point must be unchanged."
 )
 ASSUMPTIONS = [
     "position = (section, byte offset counted over the section's original intervals in original order), so the end of one interval and the start of the next are the same place",
@@ -34,4 +35,5 @@ def run_case(case):
         v, c = oracles.check_symbols(a.run, a.lst, a.ob)
         a.viol += v
         a.ctr.update(c)
+    rwbase.bystander(a, PROP)
     return rwbase.result(a)
